@@ -436,6 +436,31 @@ fn c07_literals(rng: &mut Rng, thorough: bool) -> Vec<(Vec<u8>, Vec<&'static str
         }
         out.push((s.into_bytes(), all_types.clone()));
     }
+    // digit runs of 255 / 256 / 257 / 512 digits (leading zeros are not significant), exponents written with leading zeros
+    {
+        let z = |n: usize| "0".repeat(n);
+        let mut long: Vec<String> = vec![];
+        for n in [20usize, 21, 22, 253, 254, 255, 256, 257, 300, 509, 510] {
+            long.push(format!("{}127", z(n)));
+            long.push(format!("-{}128", z(n)));
+            long.push(format!("{}41.60", z(n)));
+            long.push(format!("-{}1E2", z(n)));
+        }
+        for n in [21usize, 255, 256, 257, 512] {
+            long.push(z(n));
+            long.push(format!("{}.{}", z(n), z(n)));
+            long.push(format!("7.{}", z(n)));
+            long.push(format!("0.{}9", z(n)));
+            long.push(format!("1{}", z(n)));
+            long.push(format!("{}.5", "1".repeat(n)));
+        }
+        for e in ["1E000003", "1e+000002", "25E-0000001", "100E-000000000002", "1E00000", "-1.5e0000000001", "2E32001", "2E-32001", "1E65536", "1E99999"] {
+            long.push(e.to_string());
+        }
+        for s in long {
+            out.push((s.into_bytes(), all_types.clone()));
+        }
+    }
     // keywords and near misses; other element types
     for k in ["MIN", "MAX", "MINimum", "MAXIMUM", "min", "maximum", "Max", "mINIMUM", "MAXI", "MINIMU", "MAXIMUMS", "MA", "MI", "M", "DEF", "INF", "NAN",
               "MAX1", "MIN2", "MAXimum1", "ON", "ABC", "1 V", "1V", "255 S", "0 HZ", "'1'", "\"255\"", "#11A", "#10", "(1)", "(255)", "#HFF V"] {
@@ -641,6 +666,21 @@ pub fn rows_c08(args: &[String]) -> i32 {
             }
         }
     }
+    {
+        let z = |n: usize| "0".repeat(n);
+        for n in [20usize, 21, 255, 256, 257, 512] {
+            lits.push(format!("{}1", z(n)));
+            lits.push(z(n + 1));
+            lits.push(format!("-{}2.5", z(n)));
+            lits.push(format!("1{}", z(n)));
+            lits.push(format!("0.{}", "3".repeat(n)));
+            lits.push(format!("0.{}7", z(n)));
+            lits.push(format!("{}.{}5", "9".repeat(n), z(n)));
+        }
+        for e in ["1E000003", "1e+000002", "25E-0000001", "1E00000", "-1.5e0000000001", "2E32001", "2E-32001", "1E65536", "-1E99999"] {
+            lits.push(e.to_string());
+        }
+    }
     for z in ["-.5", "+.5", "-.25e3", "+.125E-2", "-.0", "+.0", "-5.", "+5.", "5.e2", "-5.E-1", "00012.50", "-0001.", "+000.5", "1.e0", ".5e+1",
               "0", "0.0", "-0", "+0", "0e0", ".0", "0.", "-0.0", "1e-400", "-1e-400", "1e400", "-1e400", "1e39", "3.5e38", "3.4028235e38", "3.4028236e38",
               "1.8e308", "1.7976931348623157e308", "1.7976931348623159e308", "4.9e-324", "2.4e-324", "2.5e-324", "1.4e-45", "7e-46", "7.1e-46",
@@ -668,6 +708,13 @@ pub fn rows_c08(args: &[String]) -> i32 {
               "1e-50", "0.0", "-0", "+0", "0e0", ".0", "0.", "2", "255", "1e30", "-1e30", "1e400", "0.49999", "0.50001", "1.5", "-0.0", "00", "1e0", "10e-1", "4e-1",
               "#H1", "#H0", "#B1", "#Q0", "'ON'", "\"1\"", "#11A", "(1)", "1 V", "0V"] {
         bool_row(b.as_bytes(), &mut out);
+    }
+    // booleans written with many digits: leading zeros are not significant; a huge value is non-zero or out of range
+    for n in [19usize, 20, 21, 22, 255, 256, 257] {
+        for s in [format!("{}1", "0".repeat(n)), "0".repeat(n + 1), format!("-{}2", "0".repeat(n)), format!("{}.{}", "0".repeat(n), "0".repeat(n)),
+                  format!("0.{}1", "0".repeat(n)), format!("1E{}3", "0".repeat(n.min(30))), format!("9{}", "9".repeat(n))] {
+            bool_row(s.as_bytes(), &mut out);
+        }
     }
     // accept matrix of the byte-ish targets over every element type (incl. invalid UTF-8 payloads)
     for e in [&b"ABC"[..], b"1", b"-1.5e3", b"1 V", b"#HFF", b"'text'", b"\"a\"\"b\"", b"''", b"'caf\xc3\xa9'", b"#13abc", b"#10", b"#12\xff\xfe", b"#14\xf0\x9f\x98\x80",
